@@ -553,4 +553,88 @@ def requests : R (Tab Handler × Ctx) → List Req
   | .ok (_, c) => c.trace.reverse.filterMap (fun e => match e with | .construct r _ => some r | _ => none)
   | .panic _ => []
 
+/-! ### C11: what a (possibly damaged) start leaves behind -/
+
+/-- continuation payloads never change the remembered version -/
+theorem runPl_conts_lastVersion (conts : List Pl) (s : St) (hs : PsiInv .syntax s)
+    (hus : ∀ q ∈ conts, q.us = false) (hne : ∀ q ∈ conts, 1 ≤ q.bytes.length) :
+    ∃ s' ds, runPl Psi.table s conts = .ok (s', ds) ∧ s'.lastVersion = s.lastVersion
+      ∧ PsiInv .syntax s' := by
+  obtain ⟨s', ds, h, hi⟩ := runPl_total_inv conts s hs hne
+  refine ⟨s', ds, h, ?_, hi⟩
+  rw [runPl_eq Psi.table cfgOk_table conts s hs hne, runSpec_cont _ _ _ hus] at h
+  have e : s' = (runCont Psi.table s (conts.map (·.bytes))).1 := by
+    have := R.ok.inj h; rw [this]
+  rw [e]
+  exact runCont_lastVersion _ _ _
+
+/-- a unit-start payload whose section start `D` is accepted records `versionOf D` -/
+theorem start_payload_records (s : St) (hs : PsiInv .syntax s) (pre D : Bytes) (off : Nat)
+    (hp : pre.length < 256) (hok : startOk Psi.table D = true) :
+    ∃ s' ds, consumePayload Psi.table s true (UInt8.ofNat pre.length :: (pre ++ D)) off = .ok (s', ds)
+      ∧ s'.lastVersion = some (versionOf D) ∧ PsiInv .syntax s' := by
+  have h8 : 8 ≤ D.length := ((startOk_iff Psi.table D).1 hok).2.1
+  have h1 := consumePayload_eq Psi.table cfgOk_table s true (UInt8.ofNat pre.length :: (pre ++ D)) off
+    (by simp) hs
+  have hi := consumeSpec_inv Psi.table s true (UInt8.ofNat pre.length :: (pre ++ D)) off hs
+  have hf := consumeSpec_first Psi.table s pre D off hp (by omega)
+  refine ⟨(consumeSpec Psi.table s true (UInt8.ofNat pre.length :: (pre ++ D)) off).1,
+    (consumeSpec Psi.table s true (UInt8.ofNat pre.length :: (pre ++ D)) off).2, h1, ?_, hi⟩
+  rw [hf]
+  show (startSpec Psi.table _ D _).1.lastVersion = _
+  rw [startSpec_records _ _ _ hok, versionOf_eq]
+
+/-- C11 (partial), handler level, generic in the table processor -/
+theorem table_applied_consumeAll (sect : Sect) (mk : St → List Nat → Handler)
+    (hmk : ∀ s s' reg c pk ds, Psi.consume Psi.table s pk.bytes = .ok (s', ds) →
+      App.consume (mk s reg) c pk =
+        (runDeliveries sect c reg ds >>= fun r => R.ok (mk s' r.2.1, r.1, r.2.2)))
+    (S : Bytes) (hS : WellFormedSection .syntax S) (h12 : 12 ≤ S.length)
+    (hcrc : Ts.CrcSpec.crc S = 0) (m : Mux) (hm : WellFormedMux .syntax S m)
+    (s : St) (hs : PsiInv .syntax s) (hv : s.lastVersion ≠ some (versionOf S))
+    (reg : List Nat) (c : Ctx) (pks : List Pk) (hlen : ∀ pk ∈ pks, pk.bytes.length = 188)
+    (off : Nat) (rest : List Pl)
+    (hview : (pks.map (·.bytes)).filterMap plOf = ⟨true, m.first S, off⟩ :: rest)
+    (hus : ∀ q ∈ rest, q.us = false) (hrest : rest.map (·.bytes) = m.rest) :
+    ∃ sfin, Quiescent (versionOf S) sfin ∧
+      consumeAll (mk s reg) c pks =
+        (runDeliveries sect c reg (preSpec Psi.table s m.pre).2 >>= fun r1 =>
+          sect r1.1 r1.2.1 S >>= fun r2 => R.ok (mk sfin r2.2.1, r2.1, r1.2.2 ++ r2.2.2)) := by
+  obtain ⟨sfin, h1, hq, _, _⟩ := table_applied S hS (by omega) m hm s hs hv off rest hus hrest
+  have hlen' : ∀ p ∈ pks.map (·.bytes), p.length = 188 := by
+    intro p hp
+    obtain ⟨pk, hpk, e⟩ := List.mem_map.1 hp
+    rw [← e]; exact hlen pk hpk
+  rw [← hview] at h1
+  obtain ⟨dss, hrun, hflat⟩ := run_of_runPl s (pks.map (·.bytes)) hlen' sfin _ h1
+  refine ⟨sfin, hq, ?_⟩
+  rw [table_consumeAll sect mk hmk pks s c reg sfin dss hrun, hflat]
+  rw [runDeliveries_last sect c reg _ ⟨S, _⟩ (fun b => crcPass_valid b S hS h12 hcrc)]
+  cases runDeliveries sect c reg (preSpec Psi.table s m.pre).2 with
+  | panic msg => rfl
+  | ok r1 =>
+    simp only [R.ok_bind]
+    cases sect r1.1 r1.2.1 S with
+    | panic msg => rfl
+    | ok r2 => rfl
+
+theorem repRel_pat_inv {v : Nat} {s : St} {reg : List Nat} {h' : Handler}
+    (r : RepRel v (.pat s reg) h') : ∃ s', h' = .pat s' reg ∧ Quiescent v s' ∧ s'.buf = s.buf := by
+  cases h' with
+  | pat s' reg' => obtain ⟨e, a, b⟩ := r; subst e; exact ⟨s', rfl, a, b⟩
+  | pmt _ _ _ _ => exact r.elim
+  | pes _ _ => exact r.elim
+  | recorder _ => exact r.elim
+
+/-- a dispatcher step on a PAT slot whose deliveries are all stopped by the CRC layer -/
+theorem step_pat_gated (t : Tab Handler) (c : Ctx) (pk : Pk) (s s' : St) (reg : List Nat)
+    (ds : List Delivery) (hg : t.get pk.pid = some (.pat s reg)) (hf : pk.flagged = false)
+    (hpsi : Psi.consume Psi.table s pk.bytes = .ok (s', ds))
+    (hgate : runDeliveries patSection c reg ds = .ok (c, reg, [])) :
+    specStep App.sem (t, c) pk = .ok (t.insert pk.pid (.pat s' reg), c) := by
+  rw [specStep_consume_of_contains App.sem t c pk _ (contains_of_get t pk.pid _ hg) hf hg]
+  show (App.consume (.pat s reg) c pk >>= _) = _
+  rw [consume_pat_eq s s' reg c pk ds hpsi, hgate]
+  rfl
+
 end Ts.Lemmas.C10
